@@ -7,8 +7,8 @@
 
 """
 import numpy as np
-from sklearn import metrics
 from scipy import optimize
+from scipy.spatial.distance import cdist
 import warnings
 
 __all__ = ["wasserstein"]
@@ -71,7 +71,9 @@ def wasserstein(dgm1, dgm2, matching=False):
         T = np.array([[0, 0]])
         N = 1
     # Compute CSM between S and dgm2, including points on diagonal
-    DUL = metrics.pairwise.pairwise_distances(S, T)
+    # direct differences: the expanded |x|^2 + |y|^2 - 2xy form loses half the
+    # digits when coordinates are large compared to the distances
+    DUL = cdist(S, T)
 
     # Put diagonal elements into the matrix
     # Rotate the diagrams to make it easy to find the straight line
